@@ -90,6 +90,10 @@ def classes():
                     price += rng.random() * m.tick_size
                 if price <= 0:
                     price = 0.0 if (tpl.get("allow_zero") and price == 0) else m.tick_size
+                if self.program.get("scalars") == "numpy":
+                    import numpy as np
+
+                    price, vol = np.float64(price), np.int64(vol)
                 return [Order(agent_id=self.agent_id, market_id=m.market_id, is_buy=is_buy, kind=LIMIT_ORDER,
                               volume=vol, price=price, ttl=ttl)]
             if a == "both":  # quote both sides of one market: forces self-trades
@@ -215,6 +219,12 @@ def classes():
     class ScriptHFTAgent(_Script, HighFrequencyAgent):
         pass
 
+    class FalsyScriptAgent(ScriptAgent):
+        """a user agent that is 'falsy' while it has submitted nothing."""
+
+        def __len__(self):
+            return len(self.my_orders)
+
     class RecordingLogger(Logger):
         """records what reaches the logger, at the Logger API boundary."""
 
@@ -321,7 +331,14 @@ def classes():
             taps.emit("probe_registered", event=self, hooks=out)
             return out
 
+        def __len__(self):
+            # a user event may define __len__ (here: number of hooks it fired so far): falsy at first
+            return self.n_fired
+
+        n_fired = 0
+
         def _rec(self, what, **kw):
+            self.n_fired += 1
             taps.emit("hook", event=self, what=what, **kw)
 
         def hooked_before_order(self, simulator, order):
@@ -381,6 +398,7 @@ def classes():
         "RecordingLogger": RecordingLogger,
         "FalsyRecordingLogger": FalsyRecordingLogger,
         "DepthMarket": DepthMarket,
+        "FalsyScriptAgent": FalsyScriptAgent,
         "ProbeEvent": ProbeEvent,
     }
     return _classes
@@ -476,7 +494,8 @@ def run_runner_case(case, sinks=(), with_logger=True, extra_classes=(), settings
             runner = SequentialRunner(settings=settings, prng=random.Random(case["seed"]), logger=out.logger)
             out.runner = runner
             out.simulator = runner.simulator
-            for c in (cls["ScriptAgent"], cls["ScriptHFTAgent"], cls["ProbeEvent"], cls["DepthMarket"]) + tuple(extra_classes):
+            for c in (cls["ScriptAgent"], cls["ScriptHFTAgent"], cls["ProbeEvent"], cls["DepthMarket"],
+                      cls["FalsyScriptAgent"]) + tuple(extra_classes):
                 runner.class_register(c)
             buf = io.StringIO()
             with contextlib.redirect_stdout(buf):
@@ -561,6 +580,8 @@ def gen_runner_case(rng, tier, profile="matching", **kw):
     """generate a full configuration.  Profiles only bias the generator; every profile yields a
     valid configuration."""
     n_spot = kw.get("n_spot") or rng.choice([1, 1, 2, 3])
+    if "n_spot" not in kw and rng.random() < 0.04:
+        n_spot = rng.choice([11, 12, 13])    # two-digit market ids and names
     with_index = kw.get("with_index", rng.random() < 0.3 and n_spot >= 2)
     cfg = {"simulation": {"markets": [], "agents": [], "sessions": []}}
     spot_names = []
@@ -599,7 +620,7 @@ def gen_runner_case(rng, tier, profile="matching", **kw):
         name = "A%d" % g
         mk = all_markets if rng.random() < 0.6 else rng.sample(all_markets, rng.randint(1, len(all_markets)))
         ag = {
-            "class": "ScriptAgent",
+            "class": "ScriptAgent" if rng.random() < 0.85 else "FalsyScriptAgent",
             "markets": list(mk),
             "cashAmount": rng.choice([10000, 1e6, {"uniform": [1000, 5000]}]),
             "assetVolume": rng.choice([50, 0, {"uniform": [10, 90]}]),
@@ -682,7 +703,8 @@ def gen_accounting_case(rng, tier, hostile=None, hft=None):
 
     for g in range(rng.choice([1, 2, 3])):
         mk = names if rng.random() < 0.7 else rng.sample(names, rng.randint(1, len(names)))
-        cfg["A%d" % g] = {"class": "ScriptAgent", "numAgents": rng.randint(1, 5), "markets": list(mk),
+        cfg["A%d" % g] = {"class": "ScriptAgent" if rng.random() < 0.85 else "FalsyScriptAgent",
+                          "numAgents": rng.randint(1, 5), "markets": list(mk),
                           "cashAmount": rng.choice([10000, {"uniform": [100, 100000]}]),
                           "assetVolume": rng.choice([0, 30, {"uniform": [0, 100]}]), "program": prog()}
         cfg["simulation"]["agents"].append("A%d" % g)
@@ -712,6 +734,13 @@ def gen_accounting_case(rng, tier, hostile=None, hft=None):
                          "maxNormalOrders": rng.choice([1, 2, 3, 6]),
                          "maxHighFrequencyOrders": rng.choice([1, 2, 3]),
                          "highFrequencySubmitRate": rng.choice([0.5, 1.0])})
+    if rng.random() < 0.15:
+        si = rng.randrange(len(sessions))
+        cfg["OMS"] = {"class": "OrderMistakeShock", "target": rng.choice(names),
+                      "triggerTime": rng.randrange(sessions[si]["iterationSteps"]),
+                      "priceChangeRate": rng.choice([-0.02, 0.0, 0.02]), "orderVolume": rng.choice([1, 8]),
+                      "orderTimeLength": rng.choice([0, 0, 1, 3])}
+        sessions[si]["events"] = ["OMS"]
     if rng.random() < 0.08:
         # a long session: the run crosses the 100-step storage and generation chunks
         sessions[-1]["iterationSteps"] = rng.choice([101, 130, 205])
@@ -752,14 +781,14 @@ def add_builtin_events(rng, cfg, which=None, sessions=None, p_each=0.5):
         name = "EV_%s_%d" % (cls, len(added))
         if cls == "FundamentalPriceShock":
             e = {"class": cls, "target": rng.choice(spots), "triggerTime": rng.randrange(max(1, steps)),
-                 "priceChangeRate": rng.choice([-0.3, -0.05, 0.05, 0.2]), "shockTimeLength": rng.choice([1, 1, 2, 4])}
+                 "priceChangeRate": rng.choice([-0.3, -0.05, 0.0, 0.05, 0.2]), "shockTimeLength": rng.choice([0, 1, 1, 2, 4])}
         elif cls == "OrderMistakeShock":
             e = {"class": cls, "target": rng.choice(allm), "triggerTime": rng.randrange(max(1, steps)),
-                 "priceChangeRate": rng.choice([-0.1, -0.02, 0.02, 0.1]), "orderVolume": rng.choice([1, 10, 100]),
-                 "orderTimeLength": rng.choice([1, 5, 50])}
+                 "priceChangeRate": rng.choice([-0.1, -0.02, 0.0, 0.02, 0.1]), "orderVolume": rng.choice([1, 10, 100]),
+                 "orderTimeLength": rng.choice([0, 1, 5, 50])}
         elif cls == "PriceLimitRule":
             e = {"class": cls, "targetMarkets": rng.sample(allm, rng.randint(1, len(allm))),
-                 "triggerChangeRate": rng.choice([0.01, 0.05, 0.2])}
+                 "triggerChangeRate": rng.choice([0.0, 0.01, 0.05, 0.2])}
         elif cls == "TradingHaltRule":
             e = {"class": cls, "targetMarkets": rng.sample(allm, rng.randint(1, len(allm))),
                  "triggerChangeRate": rng.choice([0.0, 0.002, 0.01, 0.05]), "haltingTimeLength": rng.choice([1, 2, 3, 8])}
